@@ -15,7 +15,7 @@ RULE = (
     "shapes: 2-4 time components with start offsets; per input: info given at init | provided later through "
     "exchange_infos | FromOutput rule | provided after another input's info arrived, pulled initially or not; "
     "per output: info at init | later | FromInput rule | after an input's info, data available immediately or "
-    "only after all initial pulls or after one particular initial pull; arbitrary wiring (self loops, cycles), all listing/link orders; components "
+    "only after all initial pulls or after one particular initial pull; arbitrary wiring (self loops, cycles), static outputs and inputs, all listing/link orders; components "
     "feed infos/data stepwise over repeated connect calls as the connect-phase documentation describes. "
     "Oracle = least fixpoint of the documented protocol over the items OP/IE/OE/DPU/DP: all complete => "
     "connect() succeeds with every component VALIDATED, all infos exchanged, in_data == producer's initial "
@@ -61,16 +61,16 @@ def _cls():
             in_rules, out_rules = {}, {}
             for i in self.spec["ins"]:
                 if i["info"] == "init":
-                    self.inputs.add(name=i["name"], info=mkinfo(self.time))
+                    self.inputs.add(name=i["name"], info=mkinfo(self.time), static=bool(i.get("static")))
                 else:
-                    self.inputs.add(name=i["name"])
+                    self.inputs.add(name=i["name"], static=bool(i.get("static")))
                 if i["info"].startswith("rule_out:"):
                     in_rules[i["name"]] = [fm.tools.FromOutput(i["info"].split(":")[1])]
             for o in self.spec["outs"]:
                 if o["info"] == "init":
-                    self.outputs.add(name=o["name"], info=mkinfo(self.time))
+                    self.outputs.add(name=o["name"], info=mkinfo(self.time), static=bool(o.get("static")))
                 else:
-                    self.outputs.add(name=o["name"])
+                    self.outputs.add(name=o["name"], static=bool(o.get("static")))
                 if o["info"].startswith("rule_in:"):
                     out_rules[o["name"]] = [fm.tools.FromInput(o["info"].split(":")[1])]
             self.create_connector(
@@ -260,7 +260,7 @@ def check(spec, ctx):
             if not out.has_targets:
                 continue
             times = [hs.mins(t) for t, _d in out.data]
-            wantt = sorted({hs.mins(t0), c["start"]})
+            wantt = [None] if o.get("static") else sorted({hs.mins(t0), c["start"]})
             if times != wantt:
                 ctx.violation("initial-publications", f"{c['name']}.{o['name']} holds publications for {times}, expected {wantt} (composition start and own start)" + info)
                 return
@@ -273,7 +273,8 @@ def shape(draw):
     comps = [{"name": m, "start": draw(st.sampled_from([0, 0, 3])), "ins": [], "outs": []} for m in names]
     for c in comps:
         for j in range(draw(st.integers(0, 2))):
-            c["outs"].append({"name": f"o{j}", "info": "init", "data": draw(st.sampled_from(["now", "now", "after_pull"]))})
+            c["outs"].append({"name": f"o{j}", "info": "init", "data": draw(st.sampled_from(["now", "now", "after_pull"])),
+                              "static": draw(st.integers(0, 5)) == 0})
     outs = [(c["name"], o["name"]) for c in comps for o in c["outs"]]
     links = []
     for c in comps:
@@ -283,6 +284,9 @@ def shape(draw):
             c["ins"].append({"name": f"i{j}", "info": "init", "pull": draw(st.integers(0, 9)) < 7})
             a = draw(st.sampled_from(outs))
             links.append([a[0], a[1], c["name"], f"i{j}"])
+            src_static = next(o for cc in comps if cc["name"] == a[0] for o in cc["outs"] if o["name"] == a[1]).get("static")
+            if src_static and draw(st.booleans()):
+                c["ins"][-1]["static"] = True  # a static input needs a static source (else validation rejects, C19)
     for c in comps:
         for i in c["ins"]:
             r = draw(st.integers(0, 19))
